@@ -30,6 +30,14 @@
 //!       write+parse), (wrong) last octet flipped / dropped / one octet appended fail, (wire) write -> parse -> write is
 //!       identical and keeps the parameters, (flip) one flipped bit at 16 spread positions of the encrypted data and in
 //!       the IV / nonce / salt makes unlocking fail
+//! section 2b (C08) secret material guarded only by the two-octet additive checksum: hand-built v4 secret key packets
+//!     (Elgamal with a one-block x, generated Ed25519Legacy keys incl. the short scalar of seed 201; thorough: P256,
+//!     RSA 2048) with S2K usage 255, a legacy cipher usage octet (MD5 key) and unprotected:
+//!       (right) parses and unlocks to the original material, (wrong) not with another passphrase,
+//!       (flip) EVERY single-bit flip of the protected / secret octets (blobs <= 64 octets; a spread selection for
+//!       RSA) is rejected by parse or unlock; it never yields DIFFERENT material; the SAME material is tolerated only
+//!       for a flip in an MPI bit-count octet (non-canonical count of the same length) or in the RSA u (recomputed)
+//!       (trunc) cut short by 1, 2, 3 octets is rejected, (extra) one appended octet is rejected
 //! section 3 (C12)  StringToKey::derive_key == independent RFC 9580 3.7.1.1-3 implementation (sha1/sha2 crates) for
 //!     Simple / Salted / Iterated, SHA1 SHA224 SHA256 SHA512, coded counts {0,1,16,96,(255)}, key sizes 16 24 32 and
 //!     passphrase lengths around the decoded count
@@ -1294,6 +1302,264 @@ fn section2(ctx: &mut Ctx, n: u64) {
 }
 
 // ---------------------------------------------------------------------------------------------------------------
+// section 2b: secret material guarded by the two-octet additive checksum only (C08): S2K usage 255, legacy cipher
+// octet, unprotected (usage 0) v4 keys.  The locking API does not create these, the packets are put together by hand.
+// ---------------------------------------------------------------------------------------------------------------
+
+fn pkt_any(tag: u8, body: &[u8]) -> Vec<u8> {
+    let mut out = vec![0xC0 | tag];
+    let n = body.len();
+    if n < 192 {
+        out.push(n as u8);
+    } else if n < 8384 {
+        out.push(((n - 192) >> 8) as u8 + 192);
+        out.push(((n - 192) & 0xff) as u8);
+    } else {
+        out.push(0xff);
+        out.extend_from_slice(&(n as u32).to_be_bytes());
+    }
+    out.extend_from_slice(body);
+    out
+}
+
+fn mpi_bytes(value: &[u8]) -> Vec<u8> {
+    let bits = (value.len() * 8 - value[0].leading_zeros() as usize) as u16;
+    let mut out = bits.to_be_bytes().to_vec();
+    out.extend_from_slice(value);
+    out
+}
+
+struct SumKey {
+    name: String,
+    /// packet body up to the protected / secret-material octets
+    prefix: Vec<u8>,
+    /// the octets that follow: CFB(secret material || checksum) or the material itself
+    blob: Vec<u8>,
+    /// positions (in the blob) where a flipped bit may legitimately leave the SAME material behind: MPI bit-count
+    /// octets (a non-canonical bit count of the same octet length) and the RSA u (recomputed, never compared)
+    same_ok: Vec<usize>,
+    pass: Vec<u8>,
+    /// all bit positions are flipped (blob <= 64 octets), otherwise a spread selection
+    exhaustive: bool,
+}
+
+const SUM_PW: &[u8] = b"correct horse";
+const SUM_SALT: [u8; 8] = [0xa1, 0xb2, 0xc3, 0xd4, 0xe5, 0xf6, 0x07, 0x18];
+const SUM_IV: [u8; 16] = [0x10, 0x32, 0x54, 0x76, 0x98, 0xba, 0xdc, 0xfe, 0x01, 0x23, 0x45, 0x67, 0x89, 0xab, 0xcd, 0xef];
+
+fn sum_s2k() -> StringToKey {
+    StringToKey::Salted { hash_alg: HashAlgorithm::Sha256, salt: SUM_SALT }
+}
+
+fn cfb(key: &[u8], plain: &[u8]) -> Vec<u8> {
+    let mut data = plain.to_vec();
+    SymmetricKeyAlgorithm::AES128.encrypt_with_iv_regular(key, &SUM_IV, &mut data).expect("cfb");
+    data
+}
+
+/// positions of the MPI bit-count octets of a sequence of `n` MPIs at the start of `plain`; returns (positions, start of the last MPI)
+fn mpi_headers(plain: &[u8], n: usize) -> (Vec<usize>, usize) {
+    let mut pos = 0usize;
+    let mut out = vec![];
+    let mut last = 0;
+    for _ in 0..n {
+        last = pos;
+        out.push(pos);
+        out.push(pos + 1);
+        let bits = u16::from_be_bytes([plain[pos], plain[pos + 1]]) as usize;
+        pos += 2 + (bits + 7) / 8;
+    }
+    (out, last)
+}
+
+fn sum_keys(thorough: bool) -> Vec<SumKey> {
+    let mut keys = vec![];
+    let derived = sum_s2k().derive_key(SUM_PW, 16).expect("s2k");
+    let md5 = HashAlgorithm::Md5.digest(SUM_PW).expect("md5");
+
+    // --- Elgamal with a 12 octet x: the protected data is exactly one cipher block, a flipped bit stays local
+    const X: [u8; 12] = [0x9d, 0x41, 0x07, 0x5e, 0x33, 0xc8, 0x6a, 0x12, 0xf0, 0x2b, 0x74, 0xe9];
+    let mut public = vec![0x04, 0x5f, 0x00, 0x00, 0x00, 16];
+    public.extend(mpi_bytes(&[0xff, 0xff, 0xff, 0xff, 0xff, 0xff, 0xff, 0xc5, 0xff, 0xff, 0xff, 0xff, 0xff, 0xff, 0xff, 0xc5]));
+    public.extend(mpi_bytes(&[0x80, 0x05]));
+    public.extend(mpi_bytes(&[0xc3, 0x11, 0x22, 0x33, 0x44, 0x55, 0x66, 0x77, 0x88, 0x99, 0xaa, 0xbb, 0xcc, 0xdd, 0xee, 0x0f]));
+    let mut plain = mpi_bytes(&X);
+    let sum: u16 = plain.iter().fold(0u16, |s, b| s.wrapping_add(*b as u16));
+    plain.extend_from_slice(&sum.to_be_bytes());
+    {
+        let mut prefix = public.clone();
+        prefix.push(255);
+        prefix.push(7); // AES128
+        sum_s2k().to_writer(&mut prefix).expect("s2k");
+        prefix.extend_from_slice(&SUM_IV);
+        keys.push(SumKey { name: "hand-built v4 Elgamal key (x = 9d41075e33c86a12f02b74e9), usage 255 AES128 salted SHA256".into(), prefix, blob: cfb(derived.as_ref(), &plain), same_ok: vec![0, 1], pass: SUM_PW.to_vec(), exhaustive: true });
+    }
+    {
+        let mut prefix = public.clone();
+        prefix.push(7); // legacy: the usage octet is the cipher, key = MD5(passphrase)
+        prefix.extend_from_slice(&SUM_IV);
+        keys.push(SumKey { name: "hand-built v4 Elgamal key (x = 9d41075e33c86a12f02b74e9), legacy usage octet 7 (AES128, MD5 key)".into(), prefix, blob: cfb(&md5, &plain), same_ok: vec![0, 1], pass: SUM_PW.to_vec(), exhaustive: true });
+    }
+    {
+        let mut prefix = public.clone();
+        prefix.push(0);
+        keys.push(SumKey { name: "hand-built v4 Elgamal key (x = 9d41075e33c86a12f02b74e9), unprotected".into(), prefix, blob: plain.clone(), same_ok: vec![0, 1], pass: vec![], exhaustive: true });
+    }
+
+    // --- generated keys: the material is taken from the library (PlainSecretParams::to_writer = material || checksum)
+    let mut generated: Vec<(String, KeyType, u64, usize)> = vec![
+        ("Ed25519Legacy primary of ChaCha8Rng seed 8".into(), KeyType::Ed25519Legacy, 8, 1),
+        ("Ed25519Legacy primary of ChaCha8Rng seed 201 (short scalar)".into(), KeyType::Ed25519Legacy, 201, 1),
+    ];
+    if thorough {
+        generated.push(("ECDSA P256 primary of ChaCha8Rng seed 8".into(), KeyType::ECDSA(ECCCurve::P256), 8, 1));
+        generated.push(("RSA 2048 primary of ChaCha8Rng seed 1".into(), KeyType::Rsa(2048), 1, 4));
+    }
+    for (name, kt, seed, n_mpis) in generated {
+        let sub = if matches!(kt, KeyType::Rsa(_)) { KeyType::ECDH(ECCCurve::Curve25519Legacy) } else { KeyType::ECDH(ECCCurve::Curve25519Legacy) };
+        let key = plain_key(KeyVersion::V4, kt, sub, seed);
+        let SecretParams::Plain(material) = key.primary_key.secret_params() else { continue };
+        let mut plain = vec![];
+        material.to_writer(&mut plain, KeyVersion::V4).expect("material");
+        let public = key.primary_key.public_key().to_bytes().expect("public");
+        let (mut same_ok, last) = mpi_headers(&plain, n_mpis);
+        if n_mpis == 4 {
+            same_ok.extend(last..plain.len() - 2); // RSA u
+        }
+        let exhaustive = plain.len() <= 64;
+        // usage 255 built through EncryptedSecretParams::new and written by the library
+        {
+            let params = EncryptedSecretParams::new(
+                cfb(derived.as_ref(), &plain).into(),
+                S2kParams::MalleableCfb { sym_alg: SymmetricKeyAlgorithm::AES128, s2k: sum_s2k(), iv: SUM_IV.to_vec().into() },
+            );
+            let k = packet::SecretKey::new(key.primary_key.public_key().clone(), SecretParams::Encrypted(params)).expect("secret key");
+            let body = k.to_bytes().expect("body");
+            let n = body.len() - plain.len();
+            keys.push(SumKey { name: format!("{name}, usage 255 AES128 salted SHA256 (EncryptedSecretParams::new + to_writer)"), prefix: body[..n].to_vec(), blob: body[n..].to_vec(), same_ok: same_ok.clone(), pass: SUM_PW.to_vec(), exhaustive });
+        }
+        // legacy cipher octet
+        {
+            let mut prefix = public.clone();
+            prefix.push(7);
+            prefix.extend_from_slice(&SUM_IV);
+            keys.push(SumKey { name: format!("{name}, legacy usage octet 7 (AES128, MD5 key)"), prefix, blob: cfb(&md5, &plain), same_ok: same_ok.clone(), pass: SUM_PW.to_vec(), exhaustive });
+        }
+        // unprotected, as the library writes it
+        {
+            let body = key.primary_key.to_bytes().expect("body");
+            let n = body.len() - plain.len();
+            keys.push(SumKey { name: format!("{name}, unprotected (as exported)"), prefix: body[..n].to_vec(), blob: body[n..].to_vec(), same_ok, pass: vec![], exhaustive });
+        }
+    }
+    keys
+}
+
+/// parse the packet and unlock it
+fn sum_open(prefix: &[u8], blob: &[u8], pass: &[u8]) -> Result<PlainSecretParams, String> {
+    let body = [prefix, blob].concat();
+    let bytes = pkt_any(5, &body);
+    let mut it = PacketParser::new(&bytes[..]);
+    let k = match it.next() {
+        Some(Ok(Packet::SecretKey(k))) => k,
+        Some(Ok(p)) => return Err(format!("parses as {:?}", p.tag())),
+        Some(Err(x)) => return Err(format!("parse: {x}")),
+        None => return Err("parses to nothing".into()),
+    };
+    if it.next().is_some() {
+        return Err("more than one packet".into());
+    }
+    match k.unlock(&pw(pass), |_, s| Ok(s.clone())) {
+        Ok(Ok(s)) => Ok(s),
+        Ok(Err(x)) => Err(format!("unlock: {x}")),
+        Err(x) => Err(format!("unlock: {x}")),
+    }
+}
+
+fn section2b(ctx: &mut Ctx, n: u64) {
+    let thorough = n >= 200;
+    for (ki, k) in sum_keys(thorough).iter().enumerate() {
+        // (right)
+        let id = format!("06{:02x}00000", ki);
+        let mut original = None;
+        if ctx.replay.is_none() || ctx.replay.as_ref().map(|r| r.starts_with(&format!("06{:02x}", ki))).unwrap_or(false) {
+            original = sum_open(&k.prefix, &k.blob, &k.pass).ok();
+        }
+        let desc = format!("{}: secret octets {}", k.name, hex(&k.blob[..std::cmp::min(k.blob.len(), 40)]));
+        ctx.run(&id, &desc, || {
+            let m = sum_open(&k.prefix, &k.blob, &k.pass).map_err(|x| format!("(right) the key is not accepted / does not unlock with its passphrase: {x}"))?;
+            let mut w = vec![];
+            m.to_writer(&mut w, KeyVersion::V4).map_err(|x| format!("(right) {x}"))?;
+            if k.pass.is_empty() && w != k.blob {
+                return Err("(right) the parsed material re-serialises differently".into());
+            }
+            if !k.pass.is_empty() {
+                let mut wrong = k.pass.clone();
+                *wrong.last_mut().unwrap() ^= 1;
+                if let Ok(m2) = sum_open(&k.prefix, &k.blob, &wrong) {
+                    return Err(format!("(wrong) unlocks with a wrong passphrase (same material: {})", m2 == m));
+                }
+            }
+            Ok(true)
+        });
+        let Some(original) = original else { continue };
+        // (flip)
+        let nbits = k.blob.len() * 8;
+        let bits: Vec<usize> = if k.exhaustive {
+            (0..nbits).collect()
+        } else {
+            // all bits of the bit-count octets, of the last 4 octets, and one bit in each of 64 spread octets
+            let mut v: Vec<usize> = k.same_ok.iter().filter(|p| k.same_ok.iter().filter(|q| **q + 1 == **p || **q == **p + 1).count() <= 1 || **p < 2).flat_map(|p| (0..8).map(move |b| p * 8 + b)).collect();
+            v.extend((k.blob.len() - 4) * 8..nbits);
+            v.extend((0..64).map(|i| (i * (k.blob.len() - 1) / 63) * 8 + i % 8));
+            v.sort();
+            v.dedup();
+            v
+        };
+        for bit in bits {
+            let id = format!("06{:02x}1{:04x}", ki, bit);
+            if !ctx.wanted(&id) {
+                continue;
+            }
+            let (byte, b) = (bit / 8, bit % 8);
+            let desc = format!("{}: bit {b} of secret octet {byte} (of {}) flipped", k.name, k.blob.len());
+            let original = &original;
+            ctx.run(&id, &desc, move || {
+                let mut t = k.blob.clone();
+                t[byte] ^= 1 << b;
+                match sum_open(&k.prefix, &t, &k.pass) {
+                    Err(_) => Ok(true),
+                    Ok(m) if &m != original => Err("(flip) one flipped bit: the key still parses and unlocks, to DIFFERENT secret material".into()),
+                    Ok(_) if k.same_ok.contains(&byte) => Ok(false),
+                    Ok(_) => Err("(flip) one flipped bit inside the checksummed octets is accepted".into()),
+                }
+            });
+        }
+        // (trunc) / (extra)
+        for cut in 1..=3usize {
+            let id = format!("06{:02x}2{:04x}", ki, cut);
+            let desc = format!("{}: secret octets cut short by {cut}", k.name);
+            ctx.run(&id, &desc, || match sum_open(&k.prefix, &k.blob[..k.blob.len() - cut], &k.pass) {
+                Err(_) => Ok(true),
+                Ok(m) => Err(format!("(trunc) secret octets cut short by {cut} (checksum missing or partial) are accepted (original material: {})", m == original)),
+            });
+        }
+        for extra in [0x00u8, 0xff] {
+            let id = format!("06{:02x}3{:04x}", ki, extra);
+            let desc = format!("{}: octet {extra:#04x} appended to the secret octets", k.name);
+            ctx.run(&id, &desc, || {
+                let mut t = k.blob.clone();
+                t.push(extra);
+                match sum_open(&k.prefix, &t, &k.pass) {
+                    Err(_) => Ok(true),
+                    Ok(_) => Err("(extra) an octet after the checksum is accepted".into()),
+                }
+            });
+        }
+    }
+}
+
+// ---------------------------------------------------------------------------------------------------------------
 // section 3: S2K against an independent implementation of RFC 9580 3.7.1.1 - 3.7.1.3 (C12)
 // ---------------------------------------------------------------------------------------------------------------
 
@@ -1911,6 +2177,9 @@ fn main() {
         }
         if only(&ctx, "02") {
             section2(&mut ctx, n);
+        }
+        if only(&ctx, "06") {
+            section2b(&mut ctx, n);
         }
         if only(&ctx, "03") {
             section3(&mut ctx, n);
